@@ -10,7 +10,7 @@ RULE = ('Hypothesis-generated coordinate-sorted in-memory fragment lists (n<=14 
         'scCHIC and plain Fragment classes; 1..3 cells; duplicates arriving after unrelated molecules; short and long '
         'fragments; 1..2 contigs). For every input ALL schedules check_eject_every in {None,0..n} x pooling_method {0,1} '
         'are run (exhaustive over schedules) and each partition is compared with the never-eject partition; every '
-        'fragment must be emitted exactly once. A quarter of the plain cases contain a bridging fragment that matches two buffered molecules (shares its start with one and its end with the other): there each pooling method is compared with its own never-eject partition; every '
+        'fragment must be emitted exactly once. Half of the cases without bridging cap the fragments per molecule (1..3): the first cap fragments of a class form the molecule, each later duplicate is an overflow singleton, for every schedule. A quarter of the plain cases contain a bridging fragment that matches two buffered molecules (shares its start with one and its end with the other): there each pooling method is compared with its own never-eject partition; every '
         'fragment must be emitted exactly once. Part wide: spans up to cache_size-1, kept only when in_domain() holds. Non-trivial: some schedule ejected a molecule before the end of the '
         'input while a further fragment was still to come, and the input has a molecule with >=2 fragments.')
 ASSUMPTIONS = ['input sorted by fragment start; every fragment span < cache_size/4 (strict reading of "shorter than the cache radius"), or (part wide) any span < cache_size provided no fragment ends more than cache_size/2 beyond the current extent of a molecule that still has fragments to come',
@@ -36,6 +36,8 @@ def strategy(max_n, wide=False):
             tid = draw(st.integers(0, ncontig - 1))
             # positions clustered so that molecules are within / just beyond the ejection margin of each other
             pos = cache + 200 + draw(st.integers(0, 6)) * (cache // 2) + draw(st.integers(0, cache))
+            if kind == 'plain' and draw(st.integers(0, 7)) == 0:
+                pos = draw(st.sampled_from([0, 0, 1, 2]))      # molecules on the very first bases of a contig
             strand = draw(st.booleans())
             cell = 'cell%d' % draw(st.integers(0, 2))
             umi = draw(st.sampled_from(UMIS))
@@ -93,7 +95,13 @@ def strategy(max_n, wide=False):
         for i, f in enumerate(frags):
             f['name'] = 'r%d_m%d' % (i, f['mol'])
             del f['tie']
-        return {'kind': kind, 'cache': cache, 'frags': frags, 'ambiguous': ambiguous}
+        # a cap on the fragments per molecule: further duplicates are emitted as single-fragment 'overflow' molecules
+        # (not combined with bridging fragments: whether a bridging fragment overflows depends on which full molecule is still
+        # buffered, which the never-eject labels cannot express)
+        cap = draw(st.sampled_from([None, None, None, 1, 2, 3]))
+        if ambiguous:
+            cap = None
+        return {'kind': kind, 'cache': cache, 'frags': frags, 'ambiguous': ambiguous, 'cap': cap}
     return case()
 
 
@@ -134,7 +142,7 @@ def run_schedule(case, every, pooling):
     log = []
     it = MoleculeIterator(source(), molecule_class=mc, fragment_class=fcls, perform_qflag=False,
                           check_eject_every=every, pooling_method=pooling,
-                          molecule_class_args={'cache_size': case['cache']},
+                          molecule_class_args=dict({'cache_size': case['cache']}, **({'max_associated_fragments': case['cap']} if case.get('cap') else {})),
                           fragment_class_args={'umi_hamming_distance': 0})
     for m in it:
         names = tuple(sorted(r.query_name for fr in m for r in fr if r is not None))
@@ -251,7 +259,14 @@ def eval_clean(case):
     truth = {}
     for f in case['frags']:
         truth.setdefault(f['mol'], []).append(f['name'])
-    truth = sorted(tuple(sorted(v)) for v in truth.values())
+    if case.get('cap'):
+        capped = []
+        for v in truth.values():       # v is in arrival order
+            capped.append(v[:case['cap']])
+            capped.extend([x] for x in v[case['cap']:])
+        truth = sorted(tuple(sorted(v)) for v in capped)
+    else:
+        truth = sorted(tuple(sorted(v)) for v in truth.values())
     if ref != truth:
         tid_of = {f['name']: f['tid'] for f in case['frags']}
         if any(len({tid_of[x] for x in g}) > 1 for g in ref):
